@@ -218,6 +218,75 @@ Example c18_wrapper_calls_bound_ex :
   run_calls (builder_execute 0%nat (Some ex_cfg) (Some 1%N) 2 ex_down 0) = 4%nat.
 Proof. reflexivity. Qed.
 
+(* ---- builder construction: the configuration `execute` sees is the fold of the setter calls ---- *)
+
+(* with_retry and with_timeout each replace exactly their own field: setters of different fields
+   commute (one step, and anywhere inside a whole construction sequence); calling the same setter
+   again keeps the last value *)
+Theorem c18_builder_setters_commute :
+  (forall b c t, apply_setter (apply_setter b (SetRetry c)) (SetTimeout t) =
+                 apply_setter (apply_setter b (SetTimeout t)) (SetRetry c)) /\
+  (forall pre post c t, build (pre ++ SetRetry c :: SetTimeout t :: post) =
+                        build (pre ++ SetTimeout t :: SetRetry c :: post)) /\
+  (forall b c1 c2, apply_setter (apply_setter b (SetRetry c1)) (SetRetry c2) =
+                   apply_setter b (SetRetry c2)) /\
+  (forall b t1 t2, apply_setter (apply_setter b (SetTimeout t1)) (SetTimeout t2) =
+                   apply_setter b (SetTimeout t2)) /\
+  (forall ss, b_retry (build ss) = last_retry ss /\ b_timeout (build ss) = last_timeout ss).
+Proof.
+  exact (conj setters_commute (conj build_swap (conj setter_retry_last_wins
+          (conj setter_timeout_last_wins build_fields)))).
+Qed.
+Example c18_builder_setters_commute_ex :
+  build [SetTimeout 5; SetRetry ex_cfg] = mk_builder (Some ex_cfg) (Some 5%N) /\
+  build [SetRetry ex_cfg; SetTimeout 5] = mk_builder (Some ex_cfg) (Some 5%N) /\
+  build [SetTimeout 9; SetRetry ex_cfg; SetTimeout 5] = mk_builder (Some ex_cfg) (Some 5%N).
+Proof. repeat split; reflexivity. Qed.
+
+(* OperationBuilder::new()...execute and CloudIOExecutor::new()...execute after ANY sequence of
+   setter calls: decided by the last value given to each setter *)
+Theorem c18_builder_by_final_config :
+  forall (X M : Type) (tmsg : M) (ss : list setter) (el : N) (op : nat -> res X M) (idx : nat),
+    executor_run tmsg ss el op idx = builder_run tmsg ss el op idx /\
+    builder_run tmsg ss el op idx =
+    match last_retry ss, last_timeout ss with
+    | Some c, Some t =>
+        let r := retry c op idx in
+        mk_run (with_timeout tmsg t el (run_out r)) (run_calls r) (run_sleeps r)
+    | Some c, None => retry c op idx
+    | None, Some t => mk_run (with_timeout tmsg t el (Done (op idx))) 1 []
+    | None, None => mk_run (Done (op idx)) 1 []
+    end.
+Proof.
+  exact (fun X M tmsg ss el op idx =>
+           conj (executor_run_is_builder_run X M tmsg ss el op idx)
+                (builder_by_final_config X M tmsg ss el op idx)).
+Qed.
+Example c18_builder_by_final_config_ex :
+  (* timeout set BEFORE the retry configuration is still in force: the late success is a Timeout *)
+  builder_run 99%nat [SetTimeout 200; SetRetry ex_cfg] 251 ex_op 0
+  = mk_run (Done (RErr Timeout 99%nat)) 3 [100; 150]%N /\
+  (* a later with_timeout replaces the earlier one *)
+  builder_run 99%nat [SetTimeout 200; SetRetry ex_cfg; SetTimeout 300] 251 ex_op 0
+  = mk_run (Done (ROk 42%nat)) 3 [100; 150]%N.
+Proof. split; reflexivity. Qed.
+
+(* whatever the construction sequence: between 1 and max(1, budget of the LAST with_retry) calls,
+   exactly 1 if with_retry was never called *)
+Theorem c18_builder_run_calls_bound :
+  forall (X M : Type) (tmsg : M) (ss : list setter) (el : N) (op : nat -> res X M) (idx : nat),
+    let r := builder_run tmsg ss el op idx in
+    (1 <= run_calls r)%nat /\
+    (run_calls r <= match last_retry ss with
+                    | Some c => N.to_nat (N.max 1 (max_attempts c)) | None => 1 end)%nat.
+Proof. exact builder_run_calls_bound. Qed.
+Example c18_builder_run_calls_bound_ex :
+  run_calls (builder_run 0%nat [SetRetry ex_cfg; SetTimeout 1;
+                                SetRetry {| max_attempts := 2; initial_delay_ms := 0;
+                                            max_delay_ms := 0; mult_ge2 := true |}] 2 ex_down 0)
+  = 2%nat.
+Proof. reflexivity. Qed.
+
 (* ------------------------------------------------------------------ batch *)
 
 (* batch_in_chunks / run_batch_operation, for every item list, chunk size (0 included) and
